@@ -84,7 +84,8 @@ ExpectedPlace(r) ==
   LET dir == OutDir(r.decl, r.ofile, r.cwd)
       pkg == PkgName(r.decl, "src", r.ofile, r.opkg, r.exist, r.cwd)
       main == <<Join(dir) \o OutFile(r.ofile), pkg>> IN
-  CASE r.conv2 \in {"none", "same-file-same-pkg", "same-file-other-name"} -> {main}
+  CASE r.conv2 = "global-ofile" -> {<<"ga/out/x.go", "aconv">>, <<"gb/out/x.go", "bconv">>}     \* the package already at each location
+    [] r.conv2 \in {"none", "same-file-same-pkg", "same-file-other-name"} -> {main}
     [] r.conv2 = "two-opkg-lines" -> {<<main[1], IF r.opkg = "absent" THEN "stale" ELSE pkg>>}
     [] r.conv2 = "vars-path-pkg" -> {main, <<Join(r.decl) \o "vsub/v.gen.go", "vsub">>}
     [] r.conv2 = "other-file-same-pkg" -> {main, <<Join(dir) \o "y.go", pkg>>}
